@@ -335,6 +335,23 @@ theorem replace_undo_closed_side (S : Schema) (doc doc' : Node) (f t : Nat) (sl 
     S.apply inv doc' = .ok doc :=
   replace_undo S doc doc' f t sl b inv hd hn hsn h1 hi (sidesCompatible_of_closed S doc f t sl hc) ha
 
+/-- **no guard is needed in a schema whose `compatible_content` is transitive** (`compatTransB S`, a
+    finite check over the node types; true e.g. of the basic and list schemas): the inverse of every
+    successfully applied replace step applies and restores the document. -/
+theorem replace_undo_transitive (S : Schema) (doc doc' : Node) (f t : Nat) (sl : Slice) (b : Bool)
+    (inv : Step) (htr : compatTransB S = true)
+    (hd : S.checkNode doc = true) (hn : fnorm doc.kids = true) (hsn : fnorm sl.content = true)
+    (h1 : S.apply (.replace f t sl b) doc = .ok doc')
+    (hi : S.invert (.replace f t sl b) doc = .ok inv)
+    (ha : alignedAt doc'.kids f = true ∧ alignedAt doc'.kids (f + sl.size.toNat) = true) :
+    S.apply inv doc' = .ok doc := by
+  refine replace_undo S doc doc' f t sl b inv hd hn hsn h1 hi ?_ ha
+  obtain ⟨ty, a, m, K, K', rfl, rfl, hr1⟩ :=
+    fromReplace_elem S doc doc' f t sl (apply_replace_fromReplace S doc doc' f t sl b h1)
+  exact sidesCompatible_of_trans S (compatTrans_of_B S htr) ty a m K K' f t sl hn hr1
+
+example : compatTransB tinyS = true := by decide
+
 /-! Non-vacuity of `replace_undo` with a slice open on both sides: in `doc(p("ab"), p("c"))` the step
     "replace 3 … 5 (`</p><p>`) by the slice `p()` open on both sides" joins the paragraphs through the
     slice node, `doc(p("abc"))`; its inverse re-inserts `⟨[p(), p()], 1, 1⟩` at 3 and splits again. -/
@@ -437,6 +454,8 @@ theorem replace_undo_needs_guard :
   · simp [sidesCompatible, bridgeCompat, ancCompat, singleDepth, brSl, brDoc, Node.kids, depthAt,
       splitRight]
     decide
+/-- and indeed `compatible_content` is not transitive in that schema -/
+example : compatTransB brS = false := by decide
 end NeedsGuard
 
 /-- **exact undo of a replace-around step** (same proviso) -/
